@@ -402,7 +402,7 @@ Definition chk_C04_hist := chk_hist mon_C04.
 Definition chk_C05_hist := chk_hist mon_C05.
 Definition chk_C07_hist := chk_hist mon_C07.
 Definition chk_C09_hist := chk_hist mon_C09.
-Definition chk_C10_hist := chk_hist mon_generic.
+Definition chk_C10_hist := chk_hist mon_C10.
 Definition chk_C11_hist := chk_hist mon_C11.
 Definition chk_C12_hist := chk_hist mon_C12.
 Definition chk_C13_hist := chk_hist mon_C13.
